@@ -41,6 +41,9 @@ type World struct {
 	cur      *FG                           // graph whose splices give access paths their context
 	gsub     *FG                           // substitutions of helpers with a single call site (context-free)
 	curLock  int                           // >0: FGI does not change cur (withArgs)
+	virt     map[*ssa.Function]*FG            // virtual handlers (virtual.go)
+	virtOf   map[*ssa.Function]*ssa.Function  // virtual handler -> the Receive function it lives in
+	virtHost map[*ssa.Function]*ssa.Function
 }
 
 var libPkgs = []string{"actor", "remote", "cluster", "ringbuffer", "safemap"}
@@ -320,6 +323,9 @@ func (w *World) pos(p token.Pos) string {
 func (w *World) fnPos(fn *ssa.Function) string {
 	if fn == nil {
 		return "-"
+	}
+	if host, ok := w.virtOf[fn]; ok {
+		return w.pos(host.Pos())
 	}
 	return w.pos(fn.Pos())
 }
